@@ -159,11 +159,39 @@ def entry_dump(grp):
     return h.hexdigest()[:16]
 
 
+def fitpart_dump(grp):
+    """everything of an entry except the user fields and the versions"""
+    h = hashlib.sha256()
+    for k in sorted(grp.attrs):
+        if k.startswith("user ") or k.endswith(" version"):
+            continue
+        h.update(k.encode())
+        h.update(repr(grp.attrs[k]).encode())
+    for k in sorted(grp):
+        h.update(k.encode())
+        h.update(np.asarray(grp[k][...]).tobytes())
+    return h.hexdigest()[:16]
+
+
+def touch(idnt, how):
+    """things a user may do with a fitted curve between two saves that
+    leave the fit column alone but change fit_properties"""
+    with warnings.catch_warnings():
+        warnings.simplefilter("ignore")
+        if how == "est":
+            idnt.compute_emodulus_mindelta()
+        elif how == "set":
+            idnt.fit_properties["weight_cp"] = 7.5e-7
+        elif how == "extra":
+            idnt.fit_properties["gcf_k"] = 0.75
+
+
 def project(path, ids, hash2fit):
     """h5 file -> abstract state + loader observations"""
     import h5py
     from nanite.rate import io as rio
-    st = {"raw": ["_"], "rawattr": ["_"], "ana": {}, "dumps": {}}
+    st = {"raw": ["_"], "rawattr": ["_"], "ana": {}, "dumps": {},
+          "fitparts": {}}
     for cid in ids:
         st["ana"][idd(cid)] = {"fit": "none", "members": ["_"],
                                "user": {"user comment": "none",
@@ -197,6 +225,7 @@ def project(path, ids, hash2fit):
                                     tag = u
                         ent["user"][fld] = tag
                     st["dumps"][key] = entry_dump(g)
+                    st["fitparts"][key] = fitpart_dump(g)
     # loaders
     obs = {"load_ok": True, "loaded": ["_"], "rated": ["_"],
            "rt_columns": True, "rt_settings": True, "rt_user": True,
@@ -334,14 +363,31 @@ def run_history(job):
     h2f = {(k[0], k[1]): v for k, v in hash2fit}
     trace = {"init": project(path, ids, h2f), "events": [],
              "hist": [list(h) for h in hist]}
-    for (cid, ftag, utag, crash) in hist:
+    for step in hist:
+        cid, ftag, utag, crash = step[:4]
+        how = step[4] if len(step) > 4 else ""
         pre = trace["events"][-1]["post"] if trace["events"] \
             else trace["init"]
         name, rate, comment = USERS[utag]
         idnt = fitted(cid, ftag)
+        same_stored = pre["ana"].get(idd(cid), {}).get("fit") == ftag \
+            and idd(cid) in pre["loaded"]
+        if how and same_stored and not crash:
+            # the same fit is stored already: the user does something that
+            # leaves the fit column alone and saves again
+            try:
+                touch(idnt, how)
+            except BaseException as exc:   # (nanite's own errors are
+                # BaseExceptions)
+                if isinstance(exc, (KeyboardInterrupt, SystemExit)):
+                    raise
+                how = how + "_failed"   # (not possible for this fit)
+        else:
+            how = ""
         inj.count, inj.fail_at, inj.log = 0, int(crash), []
         ev = {"id": idd(cid), "hash": file_hash(cid), "fit": ftag,
-              "usr": utag, "crash": int(crash), "out": "ok", "exc": ""}
+              "usr": utag, "crash": int(crash), "out": "ok", "exc": "",
+              "touch": how or "none", "same_stored": bool(same_stored)}
         try:
             with warnings.catch_warnings():
                 warnings.simplefilter("ignore")
@@ -365,6 +411,9 @@ def run_history(job):
             if k != ev["id"])
         ev["file_bytes_same"] = post["dumps"] == pre["dumps"] and \
             post["raw"] == pre["raw"]
+        ev["fitpart_same"] = bool(
+            pre["fitparts"].get(ev["id"]) is None
+            or post["fitparts"].get(ev["id"]) == pre["fitparts"][ev["id"]])
         ev["post"] = post
         trace["events"].append(ev)
     shutil.rmtree(tmpd, ignore_errors=True)
@@ -393,16 +442,27 @@ def histories(tier, rng, nsteps):
     for n in (1, 2, 3):
         for h in itertools.product(alpha, repeat=n):
             out.append([x + (0,) for x in h])
+    # re-saves of a stored fit after the curve object was used further
+    for how in ("est", "set", "extra"):
+        for ftag in ("f1", "f2", "f4"):
+            out.append([("B1", ftag, "u1", 0), ("B1", ftag, "u2", 0, how),
+                        ("B1", ftag, "u1", 0)])
+            out.append([("B2", ftag, "u1", 0), ("B1", ftag, "u1", 0),
+                        ("B1", ftag, "u2", 0, how)])
     extra = 150 if tier == "quick" else 3000
     for _ in range(extra):
         n = rng.choice([2, 3, 4])
         h = [rng.choice(alpha) + (0,) for _ in range(n)]
         j = rng.randrange(n)
         h[j] = h[j][:3] + (rng.randrange(1, nsteps["new"] + 2),)
+        for i in range(n):
+            if i != j and rng.random() < .3:
+                h[i] = h[i] + (rng.choice(["est", "set", "extra"]),)
         out.append(h)
     if tier == "quick":
         keep = out[:0]
         fixed = [h for h in out if any(x[3] for x in h)][:3 * nsteps["new"]]
+        fixed += [h for h in out if any(len(x) > 4 for x in h)][:18]
         rest = [h for h in out if h not in fixed]
         rng.shuffle(rest)
         out = fixed + rest[:220]
